@@ -78,6 +78,21 @@ def cases(tier, rnd):
             cs.append(with_replies(rnd, kind, [b""] + r[1:]) | {"args": c["args"]})
             for i in range(1, len(r)):
                 r2 = list(r); r2[i] = b""; cs.append(with_replies(rnd, kind, r2) | {"args": c["args"]})
+    # thermostat control: all 32 request subsets x remote kinds x update flag, the login reply (or a later one) empty
+    for sep in (False, True):
+        for toggle in (False, True):
+            irset = world.gen_irset(rnd)
+            irset["IRSetID"] = "ELEC7022" if sep else "ELEC7001"; irset["OnOffType"] = 1 if toggle else 0
+            irset["IRWaveList"] += [{"Key": k, "Para": "P", "HexCode": k.upper().encode().hex()} for k in ("FUN_d0", "FUN_d1", "off", "aa", "ad", "aw", "ar", "ah", "on_")]
+            for sub in range(32):
+                for upd in (False, True):
+                    args = [irset, (rnd.random() < .5) if sub & 1 else None, rnd.choice(world.MODE_NAMES) if sub & 2 else None,
+                            rnd.randrange(16, 31) if sub & 4 else 0, rnd.choice(world.FAN_NAMES) if sub & 8 else None,
+                            (rnd.random() < .5) if sub & 16 else None, upd]
+                    good = [world.login_reply(rnd), world.thermostat_reply(rnd), b"\x01\x02", b"\x03"]
+                    for k in ([0] if tier == "quick" and sub % 4 else [0, 1, 2, 3]):
+                        r = list(good); r[k] = b""
+                        cs.append(with_replies(rnd, 12, r) | {"args": args})
     return cs
 
 
